@@ -43,7 +43,27 @@ def gen_flow_leaf(rng):
         return {"t": "Divider", "ch": rng.choice([" ", "-", "─"])}
     if r < 0.93:
         return {"t": "SelectableIcon", "text": rng.choice(["*", "icon", "[x]"]), "cpos": rng.choice([0, 1])}
-    return {"t": "IntEdit", "caption": "n=", "val": rng.choice([0, 7, 123])}
+    if r < 0.97:
+        return {"t": "IntEdit", "caption": "n=", "val": rng.choice([0, 7, 123])}
+    return {"t": "NoCacheText", "text": text_of(rng)}
+
+
+_NOCACHE = {}
+
+
+def nocache_text_class():
+    """a user-style widget whose render is never cached (documented `no_cache` class attribute)"""
+    if "cls" not in _NOCACHE:
+        import urwid
+
+        class NoCacheText(urwid.Text):
+            no_cache = ["render"]  # noqa: RUF012
+
+            def render(self, size, focus=False):
+                return urwid.Text.render.original_fn(self, size, focus)
+
+        _NOCACHE["cls"] = NoCacheText
+    return _NOCACHE["cls"]
 
 
 def gen_flow(rng, depth):
@@ -157,6 +177,8 @@ def build(r):
     t = r["t"]
     if t == "Text":
         return urwid.Text(r["text"], align=r["align"], wrap=r["wrap"])
+    if t == "NoCacheText":
+        return nocache_text_class()(r["text"])
     if t == "Edit":
         w = urwid.Edit(r["caption"], r["text"], multiline=r["multiline"], align=r["align"], wrap=r["wrap"])
         if r.get("pos") is not None:
